@@ -30,7 +30,7 @@ Rest(s, k) == SubSeq(s, k + 1, Len(s))
 Ok(st)      == [err |-> "", stack |-> st.stack, done |-> st.done]
 Fail(st, e) == [err |-> e, stack |-> st.stack, done |-> st.done]
 
-\* k of DUPk / SWAPk, from the recorded trace event (the harness splits "DUP3" into name and k)
+\* an event is [id, k, c]: k of DUPk / SWAPk (the harness splits "DUP3" into name and k), c the constant of a basic PUSH
 Try(S, st, ev) ==
   LET s == st.stack  n == Len(s)  id == ev.id  k == ev.k IN
   IF id = "NOP" THEN Ok(st)
@@ -44,6 +44,7 @@ Try(S, st, ev) ==
          IF k < 1 \/ k > 16 THEN Fail(st, "depth")
          ELSE IF n < k + 1 THEN Fail(st, "underflow")
          ELSE [Ok(st) EXCEPT !.stack = [s EXCEPT ![1] = s[k + 1], ![k + 1] = s[1]]]
+  ELSE IF id = "PUSHC" THEN [Ok(st) EXCEPT !.stack = <<ev.c>> \o s]      \* basic PUSH of the constant ev.c
   ELSE IF id \notin InsIds(S) THEN Fail(st, "unknown id")
   ELSE
     LET i == InsOf(S, id)  a == i.inp  m == Len(a) IN
